@@ -201,6 +201,90 @@ def r6_documented_predicates(ctx):
     for c in defs:
         m = c.methods["__class_getitem__"]
         ctx.touch(m)
+        if not _deferred_by_interpretation(ctx, m):
+            _deferred_shape(ctx, m)
+
+
+def _deferred_by_interpretation(ctx, m):
+    """Build Deferred["pkg.sub.Cls"] abstractly (module not loaded) and ask its class test about classes from various
+    modules: it answers issubclass(cls, <the class>) exactly for classes whose module's first dotted component is
+    `pkg`, False otherwise, and resolves the reference (imports) only in the first case."""
+    from ..metainterp import Closure, HostFn, HostInterp, Raised, Record
+    from ..model import AnalysisError
+
+    imported = []
+    REF = Record(kind="the referenced class")
+
+    def getcls(ref):
+        imported.append(ref)
+        return REF
+
+    captured = {}
+
+    def handler_ctor(check, *a, **k):
+        captured["check"] = check
+        return Record(kind="handler")
+
+    genv = {
+        "sys": Record(modules={}),
+        "issubclass": lambda cls, other: bool(other is REF and cls.sub),
+    }
+    # helpers by role: the call taking the nested test function as first argument builds the handler; the call taking
+    # the reference string resolves it; the outermost call builds the type
+    nested = list(m.children.values())
+    if len(nested) != 1:
+        ctx.note(f"{m.key}: expected one nested class test; shape rule used instead")
+        return False
+    chk = nested[0]
+    for c in ast.walk(m.node):
+        if isinstance(c, ast.Call) and isinstance(c.func, ast.Name):
+            if c.args and isinstance(c.args[0], ast.Name) and c.args[0].id == chk.name:
+                genv[c.func.id] = handler_ctor
+            elif len(c.args) == 1 and isinstance(c.args[0], ast.Name) and c.args[0].id in m.params and c.func.id not in ("str", "repr"):
+                genv[c.func.id] = getcls
+    for c in ast.walk(m.node):
+        if isinstance(c, ast.Call) and isinstance(c.func, ast.Name) and c.func.id not in genv and any(isinstance(a, ast.Call) and isinstance(a.func, ast.Name) and genv.get(a.func.id) is handler_ctor for a in c.args):
+            genv[c.func.id] = lambda *a, **k: Record(kind="type")
+    try:
+        hi = HostInterp({}, Record(), {}, globals_env=genv, classes={}, functions={})
+        hi.call_function(m.node, [Record(kind="Deferred"), "pkg.sub.Cls"], {}, {})
+        check = captured.get("check")
+        if isinstance(check, Closure):
+            run = lambda k: hi.call_function(check.node, [k], {}, check.env)  # noqa: E731
+        elif callable(check):
+            run = check
+        else:
+            ctx.note(f"{m.key}: the class test handed to the handler was not captured; shape rule used instead")
+            return False
+        bad = None
+        cases = [("pkg", True), ("pkg.sub", True), ("pkg.sub.deeper", True), ("pkgother", False), ("other.pkg", False), ("", False), (None, False)]
+        n = 0
+        for modname, inside in cases:
+            for sub in (True, False):
+                k = Record(sub=sub)
+                if modname is not None:
+                    k.__module__ = modname
+                del imported[:]
+                got = run(k)
+                n += 1
+                want = inside and sub
+                if (bool(got) != want or (imported and not inside)) and bad is None:
+                    bad = (modname, sub, got, list(imported))
+    except (AnalysisError, Raised) as e:
+        ctx.note(f"{m.key} not interpretable ({e}); shape rule used instead")
+        return False
+    ctx.ob(
+        f"{m.key}:top-level-package",
+        m.loc(),
+        f"a deferred class reference is compared with the first dotted component of a class's module, and resolved only then ({n} cases interpreted)",
+        bad is None,
+        (f"for a class whose __module__ is {bad[0]!r} (subclass of the referenced class: {bad[1]}) the test answers {bad[2]!r}{' after importing ' + str(bad[3]) if bad[3] else ''}: a class defined in a submodule of the referenced package never matches, or foreign classes trigger the import" if bad else ""),
+    )
+    return True
+
+
+def _deferred_shape(ctx, m):
+    if True:
         checks = [f for f in m.children.values()]
         ok = False
         for chk in checks:
